@@ -184,6 +184,11 @@ def case_adaptive(ctx, index, rng: random.Random):
         widths = [rng.choice([1.0, 0.5, 2.5, 60.0]) for _ in range(d)]
         centre = [rng.choice([1e5, 1e6, 1.7e9, -3e7]) for _ in range(d)]
         shift = rng.choice([None, 0.5])
+        if rng.random() < 0.3:
+            # bins a few ulp of their edges wide: every edge and value is still an exact number
+            widths = [rng.choice([1.0, 2.0]) for _ in range(d)]
+            centre = [rng.choice([4e15, 1.7e15, 2.0**51]) for _ in range(d)]
+            shift = None
     spread = rng.choice([3, 10, 30]) if d == 1 else rng.choice([3, 8])
     rows = np.array([[centre[ax] + widths[ax] * (rng.randint(-spread, spread) + rng.choice([0.0, 0.5, rng.random()])) for ax in range(d)] for _ in range(n)], dtype=float)
     wts, wkind = gen.weights(rng, n)
@@ -295,7 +300,15 @@ def case_refusal(ctx, index, rng: random.Random):
     rec.mon("C05.add.refusal")
     e1 = gen.edges(rng, rng.randint(1, 6))
     a = physt.h1(np.asarray(gen.data_for_bins(rng, gen.pairs_from_edges(e1), 10)), np.array(e1))
-    kind = rng.choice(["bins", "dim", "nonhist", "array", "adaptive_missed", "array_after_free_block"])
+    kind = rng.choice(["bins", "dim", "nonhist", "array", "adaptive_missed", "array_after_free_block", "bins_few_ulp"])
+    if kind == "bins_few_ulp":
+        # bins that are only a few ulp of their edges wide (micro-second time stamps, large counters): every edge is an exact
+        # number, and bins one or more whole bins apart are different bins
+        base = rng.choice([2.0**50, 2.0**51, 4e15, 1.7e15, -(2.0**51)])
+        bw = rng.choice([1.0, 2.0]) if abs(base) > 2.0**50 else rng.choice([0.5, 1.0, 2.0])
+        nb = rng.randint(1, 5)
+        e1 = [base + bw * i for i in range(nb + 1)]
+        a = physt.h1([e1[0], e1[-1]], np.array(e1))
     with attach.quiet():
         sa = snap.snapshot(a)
     sb = None
@@ -304,6 +317,12 @@ def case_refusal(ctx, index, rng: random.Random):
             warnings.simplefilter("ignore")
             if kind == "bins":
                 e2 = np.linspace(e1[0] - 1.7, e1[-1] + 3.1, len(e1) + rng.choice([1, 2]))
+                b = physt.h1([float(e2[0])], e2)
+                with attach.quiet():
+                    sb = snap.snapshot(b)
+                r = a + b if rng.random() < 0.5 else b + a
+            elif kind == "bins_few_ulp":
+                e2 = np.array(e1) + bw * rng.choice([1, 2, 3, -1, -2])
                 b = physt.h1([float(e2[0])], e2)
                 with attach.quiet():
                     sb = snap.snapshot(b)
@@ -393,7 +412,9 @@ def case_adaptive_missed(ctx, index, rng: random.Random):
     try:
         with warnings.catch_warnings():
             warnings.simplefilter("ignore")
-            a = physt.h1(A, "fixed_width", bin_width=w, range=(lo, hi), adaptive=True)
+            # (adaptive= together with range= covers all the data: the missed values come from the time before the switch)
+            a = physt.h1(A, "fixed_width", bin_width=w, range=(lo, hi))
+            a.set_adaptive(True)
             b = physt.h1(B, "fixed_width", bin_width=w, adaptive=True)
     except Exception as e:
         rec.monitor_error("C05.adaptive_missed.make", e)
@@ -547,8 +568,62 @@ def case_from_arrays(ctx, index, rng: random.Random):
     rec.case([shape, c1.ravel().tolist(), c2.ravel().tolist(), sharing, how], sharing != "none" and float(exp.sum()) > 0, cls=f"from_arrays/{sharing}/{how}")
 
 
+def case_untracked(ctx, index, rng: random.Random):
+    """One operand was made without tracking of its missed values (keep_missed=False, or a mask / index-array selection): the sum cannot
+    know what was missed either - in whichever order the operands come, it does not report a known underflow / overflow."""
+    import physt
+
+    rec = ctx.rec
+    rec.mon("C05.partition.equiv")
+    e = gen.edges(rng, rng.randint(2, 6))
+    pairs = gen.pairs_from_edges(e)
+    width = e[-1] - e[0]
+
+    def data(n):
+        return np.asarray(gen.data_for_bins(rng, pairs, n) + [e[0] - rng.uniform(0.1, 1) * width for _ in range(rng.randint(1, 4))] + [e[-1] + rng.uniform(0.1, 1) * width for _ in range(rng.randint(1, 4))])
+
+    a = physt.h1(data(rng.randint(0, 20)), np.array(e))
+    how_b = rng.choice(["keep_missed=False", "keep_missed=False", "mask"])
+    if how_b == "mask":
+        b = physt.h1(data(rng.randint(0, 20)), np.array(e))[np.ones(len(pairs), dtype=bool)]
+    else:
+        b = physt.h1(data(rng.randint(0, 20)), np.array(e), keep_missed=False)
+    results = {}
+    try:
+        with warnings.catch_warnings():
+            warnings.simplefilter("ignore")
+            results["a+b"] = a + b
+            results["b+a"] = b + a
+            c = a.copy()
+            c += b
+            results["a+=b"] = c
+            c = b.copy()
+            c += a
+            results["b+=a"] = c
+            results["sum[a,b]"] = sum([a, b])
+            results["sum[b,a]"] = sum([b, a])
+    except Exception as ex:
+        rec.fail(monitor="C05.partition.equiv", op="add/untracked", symptom=f"adding histograms over equal bins raised {type(ex).__name__}", diff=["raised"], detail={"error": str(ex)[:160], "b": how_b})
+        return
+    with attach.quiet():
+        want = np.asarray(a.frequencies) + np.asarray(b.frequencies)
+        views = {}
+        for k, r in results.items():
+            under, over = float(r.underflow), float(r.overflow)
+            views[k] = (bool(r.keep_missed), "nan" if math.isnan(under) else under, "nan" if math.isnan(over) else over)
+            if not np.array_equal(np.asarray(r.frequencies), want):
+                rec.fail(monitor="C05.partition.equiv", op=k, symptom="contents of the sum are not the sums of the contents", diff=["frequencies"], detail={"b": how_b})
+            if views[k][1] != "nan" or views[k][2] != "nan":
+                rec.fail(monitor="C05.partition.equiv", op=k, symptom="an operand that does not keep its missed values was added, yet the result reports a known underflow / overflow",
+                         diff=["underflow", "overflow", "keep_missed"], detail={"b": how_b, "result": views[k], "a_missed": [float(a.underflow), float(a.overflow)], "edges": e})
+        if len(set(views.values())) > 1:
+            rec.fail(monitor="C05.partition.equiv", op="a+b vs b+a", symptom="two summation orders give different histograms", diff=["underflow", "overflow", "keep_missed"], detail={"b": how_b, "views": {k: list(v) for k, v in views.items()}})
+    rec.case(["untracked", e, how_b, np.asarray(a.frequencies).tolist(), np.asarray(b.frequencies).tolist()], True, cls=f"untracked/{how_b}")
+
+
 def run(ctx):
     attach_monitors()
+    ctx.run_cases(ctx.scale(60, 400), case_untracked, salt="untracked")
     ctx.run_cases(ctx.scale(60, 400), case_from_arrays, salt="arrays")
     ctx.run_cases(ctx.scale(60, 400), case_adaptive_missed, salt="admissed")
     ctx.run_cases(ctx.scale(60, 400), case_collection_sum, salt="colsum")
